@@ -118,10 +118,46 @@ func runC14(c C14Case) string {
 		msg = valueEq(a.Neg(), new(big.Int).Neg(ac), ae)
 	case "abs":
 		msg = valueEq(a.Abs(), new(big.Int).Abs(ac), ae)
-	case "shl":
-		msg = valueEq(a.ShiftL(c.N), ac, ae+int64(c.N))
-	case "shr":
-		msg = valueEq(a.ShiftR(c.N), ac, ae-int64(c.N))
+	case "shl", "shr":
+		r := ae + int64(c.N)
+		if c.Op == "shr" {
+			r = ae - int64(c.N)
+		}
+		if r == math.MaxInt32+1 {
+			// ion-go keeps the negated exponent in an int32, so 2^31 exists inside
+			// but not through CoEx: left unjudged (DESIGN 13.3)
+			st.Discard("shift to exponent 2^31")
+			return ""
+		}
+		if r > math.MaxInt32 || r < -math.MaxInt32 {
+			// the result has no representation (ion-go's exponents span -(2^31-1) .. 2^31-1): the call must refuse (it panics with
+			// "exponent out of bounds"), never hand back some other number
+			var got *ion.Decimal
+			refused := false
+			func() {
+				defer func() {
+					if recover() != nil {
+						refused = true
+					}
+				}()
+				if c.Op == "shl" {
+					got = a.ShiftL(c.N)
+				} else {
+					got = a.ShiftR(c.N)
+				}
+			}()
+			if !refused {
+				gc, ge := got.CoEx()
+				msg = fmt.Sprintf("%s by %d of %vd%d: the exponent %d is out of range, yet the call returned %vd%d", c.Op, c.N, ac, ae, r, gc, ge)
+			}
+			cls += ".out-of-range"
+			break
+		}
+		if c.Op == "shl" {
+			msg = valueEq(a.ShiftL(c.N), ac, r)
+		} else {
+			msg = valueEq(a.ShiftR(c.N), ac, r)
+		}
 	case "cmp", "equal":
 		m := min64(ae, be)
 		want := scaled(ac, ae, m).Cmp(scaled(bc, be, m))
@@ -281,6 +317,11 @@ func genC14(t *rapid.T) C14Case {
 		}
 		if r > math.MaxInt32 || r < -math.MaxInt32 {
 			c.N = 0
+		}
+		if gen.Chance(t, 12) {
+			// exponents at the ends of the range, shifted across them and back
+			a.Exp = gen.Pick(t, []int64{math.MaxInt32, math.MaxInt32 - 1, math.MaxInt32 - 50, math.MinInt32 + 1, math.MinInt32 + 2, math.MinInt32 + 50, 2000000000, -2000000000})
+			c.N = gen.Pick(t, []int{1, -1, 2, -2, 49, 50, 51, -49, -50, -51, 147483647, 147483648, -147483648, 2000000000, -2000000000, 2147483647, -2147483647})
 		}
 	case "trunc":
 		c.N = gen.Pick(t, []int{1, 2, 3, gen.Range(t, 1, 80)})
